@@ -253,6 +253,10 @@ func (f *MemFile) ReadAt(b []byte, off int64) (n int, err error) {
 		return 0, &fs.PathError{Op: op, Path: f.name, Err: fs.ErrClosed}
 	}
 
+	if off < 0 {
+		return 0, &fs.PathError{Op: "readat", Path: f.name, Err: avfs.ErrNegativeOffset}
+	}
+
 	nd, ok := f.nd.(*fileNode)
 	if !ok {
 		err = avfs.ErrIsADirectory
@@ -261,10 +265,6 @@ func (f *MemFile) ReadAt(b []byte, off int64) (n int, err error) {
 		}
 
 		return 0, &fs.PathError{Op: op, Path: f.name, Err: err}
-	}
-
-	if off < 0 {
-		return 0, &fs.PathError{Op: "readat", Path: f.name, Err: avfs.ErrNegativeOffset}
 	}
 
 	if f.openMode&avfs.OpenRead == 0 {
